@@ -4,7 +4,7 @@ seeds="$1"; shift
 ids="$@"; [ -z "$ids" ] && ids="C01 C02 C03 C04 C05 C06 C07 C08 C09 C10 C11 C12 C13 C14 C17 C18 C19 C20"
 for s in $seeds; do
   for c in $ids; do
-    VERIF_SEED=$s ./check $c --tier quick > /tmp/soak_${c}_$s.log 2>&1; rc=$?
+    PYXSIM_EVIDENCE_DIR=/tmp/soak_evidence VERIF_SEED=$s ./check $c --tier quick > /tmp/soak_${c}_$s.log 2>&1; rc=$?
     if [ $rc -ne 0 ]; then
       echo "### seed=$s $c rc=$rc"; grep -E "VIOLATION|violation clause|HARNESS" /tmp/soak_${c}_$s.log | cut -c1-500 | head -6
     fi
